@@ -1,4 +1,6 @@
 // C19: peel / getConnComps / Tree::symmetricLayout / OrthoPlanariser on every small labelled graph.
+#include <array>
+#include <memory>
 #include "libdialect/libdialect.h"
 #include "libdialect/io.h"
 #include "libdialect/peeling.h"
@@ -102,34 +104,60 @@ static bool properCross(const Sg &s, const Sg &t) {
     const Sg &h = sh ? s : t; const Sg &v = sh ? t : s; double hx0 = min(h.ax, h.bx), hx1 = max(h.ax, h.bx), vy0 = min(v.ay, v.by), vy1 = max(v.ay, v.by);
     return v.ax > hx0 + 1e-9 && v.ax < hx1 - 1e-9 && h.ay > vy0 + 1e-9 && h.ay < vy1 - 1e-9;
 }
+// planarise an already routed graph and judge the result; returns a non-empty reason on a violation
+static string planarise_and_judge(Graph_SP g) {
+    string why;
+    vector<vector<Sg>> segs; for (auto &p : g->getEdgeLookup()) { vector<Avoid::Point> r = p.second->getRoute(); vector<Sg> v; for (size_t k = 1; k < r.size(); k++) v.push_back({r[k - 1].x, r[k - 1].y, r[k].x, r[k].y}); segs.push_back(v); }
+    bool cr = false; for (size_t a = 0; a < segs.size(); a++) for (size_t b = a + 1; b < segs.size(); b++) for (auto &x : segs[a]) for (auto &y : segs[b]) if (properCross(x, y)) cr = true;
+    if (cr) ctx.count("nontrivial");
+    set<id_type> orig; for (auto &p : g->getNodeLookup()) orig.insert(p.first);
+    set<IdE> origAdj; for (auto &p : g->getEdgeLookup()) origAdj.insert(key(p.second));
+    OrthoPlanariser op(g); Graph_SP Q = op.planarise(); ctx.count("transitions");
+    for (id_type id : orig) if (!Q->getNodeLookup().count(id)) why = "original node missing";
+    vector<vector<Sg>> qs;
+    for (auto &p : Q->getEdgeLookup()) { vector<Avoid::Point> r = p.second->getRoute(); vector<Sg> v;
+        if (r.size() < 2) { Node_SP a = Q->getNodeLookup().at(p.second->getEndIds().first), b = Q->getNodeLookup().at(p.second->getEndIds().second); v.push_back({a->getCentre().x, a->getCentre().y, b->getCentre().x, b->getCentre().y}); }
+        for (size_t k = 1; k < r.size(); k++) v.push_back({r[k - 1].x, r[k - 1].y, r[k].x, r[k].y}); qs.push_back(v); }
+    for (size_t a = 0; a < qs.size(); a++) for (size_t b = a + 1; b < qs.size(); b++) for (auto &x : qs[a]) for (auto &y : qs[b]) if (properCross(x, y)) why = "two edges still cross";
+    // every original adjacency survives as a chain through new (dummy) nodes only
+    if (why.empty()) {
+        map<id_type, vector<id_type>> adj; for (auto &p : Q->getEdgeLookup()) { auto e = p.second->getEndIds(); adj[e.first].push_back(e.second); adj[e.second].push_back(e.first); }
+        for (auto &oe : origAdj) {
+            set<id_type> seen; vector<id_type> st{oe.first}; bool found = false;
+            while (!st.empty() && !found) { id_type u = st.back(); st.pop_back(); if (!seen.insert(u).second) continue; for (auto w : adj[u]) { if (w == oe.second) { found = true; break; } if (!orig.count(w)) st.push_back(w); } }
+            if (!found) { why = mcx::fmt("former neighbours %u,%u no longer connected through new nodes", oe.first, oe.second); break; }
+        }
+    }
+    return why;
+}
 static void check_planarise(int n, const EL &es) {
     string desc = "planarise " + gstr(n, es), why;
     try {
         string s = tglf(n, es, 1); Graph_SP g = buildGraphFromTglf(s); HolaOpts opts;
         LeaflessOrthoRouter lor(g, opts); lor.setShapeBufferDistanceIELScalar(0.125); lor.route();
-        vector<vector<Sg>> segs; for (auto &p : g->getEdgeLookup()) { vector<Avoid::Point> r = p.second->getRoute(); vector<Sg> v; for (size_t k = 1; k < r.size(); k++) v.push_back({r[k - 1].x, r[k - 1].y, r[k].x, r[k].y}); segs.push_back(v); }
-        bool cr = false; for (size_t a = 0; a < segs.size(); a++) for (size_t b = a + 1; b < segs.size(); b++) for (auto &x : segs[a]) for (auto &y : segs[b]) if (properCross(x, y)) cr = true;
-        if (cr) ctx.count("nontrivial");
-        set<id_type> orig; for (auto &p : g->getNodeLookup()) orig.insert(p.first);
-        set<IdE> origAdj; for (auto &p : g->getEdgeLookup()) origAdj.insert(key(p.second));
-        OrthoPlanariser op(g); Graph_SP Q = op.planarise(); ctx.count("transitions");
-        for (id_type id : orig) if (!Q->getNodeLookup().count(id)) why = "original node missing";
-        vector<vector<Sg>> qs;
-        for (auto &p : Q->getEdgeLookup()) { vector<Avoid::Point> r = p.second->getRoute(); vector<Sg> v;
-            if (r.size() < 2) { Node_SP a = Q->getNodeLookup().at(p.second->getEndIds().first), b = Q->getNodeLookup().at(p.second->getEndIds().second); v.push_back({a->getCentre().x, a->getCentre().y, b->getCentre().x, b->getCentre().y}); }
-            for (size_t k = 1; k < r.size(); k++) v.push_back({r[k - 1].x, r[k - 1].y, r[k].x, r[k].y}); qs.push_back(v); }
-        for (size_t a = 0; a < qs.size(); a++) for (size_t b = a + 1; b < qs.size(); b++) for (auto &x : qs[a]) for (auto &y : qs[b]) if (properCross(x, y)) why = "two edges still cross";
-        // every original adjacency survives as a chain through new (dummy) nodes only
-        if (why.empty()) {
-            map<id_type, vector<id_type>> adj; for (auto &p : Q->getEdgeLookup()) { auto e = p.second->getEndIds(); adj[e.first].push_back(e.second); adj[e.second].push_back(e.first); }
-            for (auto &oe : origAdj) {
-                set<id_type> seen; vector<id_type> st{oe.first}; bool found = false;
-                while (!st.empty() && !found) { id_type u = st.back(); st.pop_back(); if (!seen.insert(u).second) continue; for (auto w : adj[u]) { if (w == oe.second) { found = true; break; } if (!orig.count(w)) st.push_back(w); } }
-                if (!found) { why = mcx::fmt("former neighbours %u,%u no longer connected through new nodes", oe.first, oe.second); break; }
-            }
-        }
+        why = planarise_and_judge(g);
     } catch (std::exception &e) { ctx.library_abort(std::string("exception: ") + e.what(), desc); return; } catch (vpsc::CriticalFailure &f) { ctx.library_abort(f.what(), desc); return; }
     if (!why.empty()) ctx.violation("planarise", {}, desc, why);
+}
+// the SAME Graph routed (Graph::route) and planarised, its nodes moved, routed and planarised again: 4 nodes 30x30 on the cells of a 3x2 grid
+// (spacing 100), two edge sets, every ordered pair of placements.  An exception out of planarise() on a validly routed graph is a violation too.
+static void replanarise_phase(int edgeSet) {
+    static const double CX[6] = {0, 100, 200, 0, 100, 200}, CY[6] = {0, 0, 0, 100, 100, 100};
+    vector<array<int, 4>> pl; for (int a = 0; a < 6; a++) for (int b = 0; b < 6; b++) for (int c = 0; c < 6; c++) for (int d = 0; d < 6; d++) if (a != b && a != c && a != d && b != c && b != d && c != d) pl.push_back({a, b, c, d});
+    ctx.phase(mcx::fmt("route + planarise, move the nodes, route + planarise again on the SAME Graph: 4 nodes on a 3x2 grid, edges %s, every ordered pair of %zu placements", edgeSet == 0 ? "0-1 2-3" : "0-1 1-2 2-3", pl.size()));
+    for (size_t i = 0; i < pl.size(); i++) for (size_t j = 0; j < pl.size(); j++) {
+        if (ctx.stopped()) return; if (i == j) continue; if (!ctx.next()) continue;
+        string desc = mcx::fmt("re-planarise edges#%d placements (%d,%d,%d,%d) -> (%d,%d,%d,%d)", edgeSet, pl[i][0], pl[i][1], pl[i][2], pl[i][3], pl[j][0], pl[j][1], pl[j][2], pl[j][3]);
+        ctx.count("states"); ctx.sample(desc, 1); string why;
+        try {
+            Graph_SP g = std::make_shared<Graph>(); vector<Node_SP> ns; for (int k = 0; k < 4; k++) ns.push_back(g->addNode(CX[pl[i][k]], CY[pl[i][k]], 30, 30));
+            g->addEdge(ns[0], ns[1]); if (edgeSet) g->addEdge(ns[1], ns[2]); g->addEdge(ns[2], ns[3]);
+            g->route(Avoid::OrthogonalRouting); why = planarise_and_judge(g);
+            if (why.empty()) { for (int k = 0; k < 4; k++) ns[k]->setCentre(CX[pl[j][k]], CY[pl[j][k]]); g->route(Avoid::OrthogonalRouting); why = planarise_and_judge(g); if (!why.empty()) why = "after the move: " + why; }
+        } catch (std::exception &e) { why = std::string("planarise/route threw ") + e.what(); } catch (vpsc::CriticalFailure &f) { ctx.library_abort(f.what(), desc); ctx.done_case(); continue; }
+        if (!why.empty()) ctx.violation("planarise", {"history"}, desc, why);
+        ctx.done_case();
+    }
 }
 
 template <class F> static void all_graphs(int n, bool connectedOnly, F f) {
@@ -174,5 +202,6 @@ int main(int argc, char **argv) {
         ctx.phase(mcx::fmt("planarise: all labelled leafless connected graphs n=%d routed by LeaflessOrthoRouter", n));
         all_graphs(n, true, [&](const EL &es) { vector<int> deg(n, 0); for (auto &e : es) { deg[e.first]++; deg[e.second]++; } for (int d : deg) if (d < 2) return; if (!ctx.next()) return; ctx.count("states"); ctx.sample(gstr(n, es)); check_planarise(n, es); ctx.done_case(); });
     }
+    replanarise_phase(0); if (T) replanarise_phase(1);
     return ctx.finish();
 }
